@@ -342,9 +342,11 @@ def simpleError (cfg : Cfg) (line : Int) (msg : Msg) (code : Code) : Info :=
     sev := .error, msg := msg, code := some code, blocker := false, onlyOnce := false, span := [line],
     priority := 0, hidden := false, parent := none }
 
-/-- `used_ignored_lines[file][line]` -/
-def usedCodes (d : Dyn) (file : FileId) (line : Int) : List CodeName :=
-  (d.used.filter (fun u => u.1 = file ∧ u.2.1 = line)).map (·.2.2)
+/-- `used_ignored_lines[file][line]` (from the log of appends) -/
+def usedCodesOf (used : List (FileId × Int × CodeName)) (file : FileId) (line : Int) : List CodeName :=
+  (used.filter (fun u => u.1 = file ∧ u.2.1 = line)).map (·.2.2)
+
+def usedCodes (d : Dyn) (file : FileId) (line : Int) : List CodeName := usedCodesOf d.used file line
 
 def narrowerOf (env : Env) (used : List CodeName) (unused : CodeName) : Option (CodeName × List CodeName) :=
   let n := ((lookup unused env.subCodeMap).getD []).filter (· ∈ used)
@@ -362,14 +364,19 @@ def unusedMsg (env : Env) (skipped : List Int) (used : List CodeName) (line : In
       let detail := if codes.length > 1 && !unused.isEmpty then unused else []
       some (.unusedIgnore detail (unused.filterMap (narrowerOf env used)))
 
+/-- the errors one call of `generate_unused_ignore_errors` appends (dict order of `ignored_lines[file]`) -/
+def unusedNews (env : Env) (cfg : Cfg) (used : List (FileId × Int × CodeName)) (file : FileId) : List Info :=
+  let ign := (lookup file cfg.ignoredLines).getD []
+  let skipped := (lookup file cfg.skippedLines).getD []
+  ign.filterMap fun lc =>
+    (unusedMsg env skipped (usedCodesOf used file lc.1) lc.1 lc.2).map fun m => simpleError cfg lc.1 m env.unusedIgnore
+
+def addAll (env : Env) (d : Dyn) (file : FileId) (news : List Info) : Dyn :=
+  news.foldl (fun d n => rawAdd env d file n) d
+
 def genUnused (env : Env) (cfg : Cfg) (d : Dyn) (file : FileId) (isTypeshed : Bool) : Dyn :=
   if isTypeshed || file ∈ cfg.ignoredFiles then d
-  else
-    let ign := (lookup file cfg.ignoredLines).getD []
-    let skipped := (lookup file cfg.skippedLines).getD []
-    let news := ign.filterMap fun (line, codes) =>
-      (unusedMsg env skipped (usedCodes d file line) line codes).map fun m => simpleError cfg line m env.unusedIgnore
-    news.foldl (fun d n => rawAdd env d file n) d
+  else addAll env d file (unusedNews env cfg d.used file)
 
 /-- insertion sort of code names + removal of duplicates: `sorted(set(...))` -/
 def insertNat (x : Nat) : List Nat → List Nat
@@ -384,14 +391,15 @@ def noCodeMsg (skipped : List Int) (used : List CodeName) (warnUnused : Bool) (l
   else if warnUnused && used.isEmpty then none
   else some (.ignoreWithoutCode (sortedSet used))
 
+def noCodeNews (env : Env) (cfg : Cfg) (used : List (FileId × Int × CodeName)) (file : FileId) (warnUnused : Bool) : List Info :=
+  let ign := (lookup file cfg.ignoredLines).getD []
+  let skipped := (lookup file cfg.skippedLines).getD []
+  ign.filterMap fun lc =>
+    (noCodeMsg skipped (usedCodesOf used file lc.1) warnUnused lc.1 lc.2).map fun m => simpleError cfg lc.1 m env.ignoreWithoutCode
+
 def genNoCode (env : Env) (cfg : Cfg) (d : Dyn) (file : FileId) (warnUnused isTypeshed : Bool) : Dyn :=
   if isTypeshed || file ∈ cfg.ignoredFiles then d
-  else
-    let ign := (lookup file cfg.ignoredLines).getD []
-    let skipped := (lookup file cfg.skippedLines).getD []
-    let news := ign.filterMap fun (line, codes) =>
-      (noCodeMsg skipped (usedCodes d file line) warnUnused line codes).map fun m => simpleError cfg line m env.ignoreWithoutCode
-    news.foldl (fun d n => rawAdd env d file n) d
+  else addAll env d file (noCodeNews env cfg d.used file warnUnused)
 
 /-! ### file_messages -/
 
